@@ -158,6 +158,9 @@ func c07Zones(c c07Case) (map[string]mockdns.Zone, string) {
 	case "nxdomain":
 	case "servfail":
 		z["_dmarc."+from+"."] = mockdns.Zone{Err: &net.DNSError{Err: "server misbehaving", IsTemporary: true}}
+	case "timeout":
+		// the lookup times out: a temporary failure as well (net.DNSError.Temporary covers both)
+		z["_dmarc."+from+"."] = mockdns.Zone{Err: &net.DNSError{Err: "i/o timeout", IsTimeout: true}}
 	case "servfail-at-org":
 		// nothing at the author domain; the query for the organizational domain fails temporarily
 		if hasOrg && org != from {
@@ -180,7 +183,7 @@ func c07Reference(c c07Case, where string) c07Expect {
 	if c.FromShape != "one" {
 		return c07Expect{noPass: true, reply: -2, quarantine: -1, note: "no single author: never a pass"}
 	}
-	if c.Lookup == "servfail" || where == "org-servfail" {
+	if c.Lookup == "servfail" || c.Lookup == "timeout" || where == "org-servfail" {
 		return c07Expect{noPass: true, reply: 4, quarantine: -1, note: "temporary policy lookup failure: refuse temporarily"}
 	}
 	if where == "" {
@@ -383,7 +386,7 @@ var c07Families = []c07Family{
 func TestVerifC07(t *testing.T) {
 	r := vx.Start("C07", "dmarc")
 	defer r.Finish()
-	r.Rule("part A (alignment): From domain in {organizational, subdomain, public suffix} under a single-label and a multi-label public suffix, lower- and upper-case x every multiset of 1-2 DKIM results (values x {exact, subdomain, sibling, public suffix, unrelated} x case, plus look-alike names ending in the organizational domain without a label boundary) x one SPF result (values x MAIL FROM/HELO identity x the same domains) x adkim/aspf in {r,s}^2, with p=reject sp=quarantine at the organizational domain; part B (policy): p x sp x pct x lookup outcome {at domain, at organizational domain, none, multiple, NXDOMAIN, SERVFAIL, nothing at the domain + SERVFAIL at the organizational domain, unrelated TXT at the domain + record at the organizational domain} x From shapes {one, none, two addresses, two fields, an empty field before / after a filled one, group, unparsable} x representative authentication outcomes; every case through the real dmarc.Verifier as driven by the pipeline's checkRunner (checkBody + applyResults), the SPF/DKIM results arriving as the body-stage result of a scripted check (with a reason and no action flag when a result is a failure, as a check with action 'ignore' reports it); oracle: RFC 7489 reference over the public-suffix list (pass iff aligned pass; action = p / sp; temperror on an alignable identifier under reject => 4xx; temporary lookup failure => 4xx; no single author => never pass). Non-trivial: distinct cases whose reference outcome is pass, refusal or quarantine")
+	r.Rule("part A (alignment): From domain in {organizational, subdomain, public suffix} under a single-label and a multi-label public suffix, lower- and upper-case x every multiset of 1-2 DKIM results (values x {exact, subdomain, sibling, public suffix, unrelated} x case, plus look-alike names ending in the organizational domain without a label boundary) x one SPF result (values x MAIL FROM/HELO identity x the same domains) x adkim/aspf in {r,s}^2, with p=reject sp=quarantine at the organizational domain; part B (policy): p x sp x pct x lookup outcome {at domain, at organizational domain, none, multiple, NXDOMAIN, SERVFAIL, time-out, nothing at the domain + SERVFAIL at the organizational domain, unrelated TXT at the domain + record at the organizational domain} x From shapes {one, none, two addresses, two fields, an empty field before / after a filled one, group, unparsable} x representative authentication outcomes; every case through the real dmarc.Verifier as driven by the pipeline's checkRunner (checkBody + applyResults), the SPF/DKIM results arriving as the body-stage result of a scripted check (with a reason and no action flag when a result is a failure, as a check with action 'ignore' reports it); oracle: RFC 7489 reference over the public-suffix list (pass iff aligned pass; action = p / sp; temperror on an alignable identifier under reject => 4xx; temporary lookup failure => 4xx; no single author => never pass). Non-trivial: distinct cases whose reference outcome is pass, refusal or quarantine")
 	r.Assume("golang.org/x/net/publicsuffix on lower-cased names is the ground truth for organizational domains; a temperror on an identifier that cannot align may be answered 4xx or 5xx under p=reject (the statement does not decide)")
 	if rp := r.Replay(); rp != nil {
 		var c c07Case
@@ -489,7 +492,7 @@ func TestVerifC07(t *testing.T) {
 						for _, p := range []string{"none", "quarantine", "reject"} {
 							for _, sp := range []string{"", "none", "quarantine", "reject"} {
 								for _, pct := range []string{"", "100"} {
-									for _, lk := range []string{"at-domain", "at-org", "none", "multiple", "nxdomain", "servfail", "servfail-at-org", "unrelated-at-domain+at-org"} {
+									for _, lk := range []string{"at-domain", "at-org", "none", "multiple", "nxdomain", "servfail", "timeout", "servfail-at-org", "unrelated-at-domain+at-org"} {
 										idx++
 										if !r.Mine(idx) {
 											continue
